@@ -16,11 +16,12 @@ def addrOfName (n : String) : Option Addr :=
   | _ =>
     if n.startsWith "s" then (n.drop 1).toString.toNat?.map (· + 100)
     else if n.startsWith "P" then (n.drop 1).toString.toNat?.map (· + 200)
+    else if n.startsWith "V" then (n.drop 1).toString.toNat?.map (· + 300)
     else none
 
 def nameOfAddr (a : Addr) : String :=
   if a = 0 then "nosender" else if a = 1 then "A" else if a = 2 then "B" else if a = 3 then "G" else if a = 4 then "U"
-  else if a = 6 then "ghost" else if a ≥ 200 then s!"P{a - 200}" else if a ≥ 100 then s!"s{a - 100}" else s!"?{a}"
+  else if a = 6 then "ghost" else if a ≥ 300 then s!"V{a - 300}" else if a ≥ 200 then s!"P{a - 200}" else if a ≥ 100 then s!"s{a - 100}" else s!"?{a}"
 
 def causeStr : Cause → String
   | .mailboxFull => "full" | .unhandled => "unhandled" | .notFound => "notfound" | .batch => "batch"
@@ -55,6 +56,9 @@ def evsOf (f : List String) : Option (List Ev) :=
   | ["unh", snd, l] => some ((idList l).map fun id => .localDrop true .user (senderSpec snd) 4 id .unhandled)
   | ["unhps", k] => some [.localDrop true .postStart none (200 + k.toNat?.getD 0) 0 .unhandled]
   | ["rmiss", snd, l] => some ((idList l).map fun id => .remoteDrop (senderSpec snd) (some 6) (some id) .notFound)
+  | ["rpass", k, _, snd, l] =>
+    -- the target is in the tree but `IsRunning()` is false (passivating): `deadLetterRemoteMessage` with ErrDead
+    some ((idList l).map fun id => .remoteDrop (senderSpec snd) (some (300 + k.toNat?.getD 0)) (some id) .notRunning)
   | ["rbadr", id] => some [.remoteDrop (some 1) none (some (id.toNat?.getD 0)) .notFound]
   | ["rbadp", _] => some [.remoteDrop (some 1) (some 6) none .notFound]
   | ["rtell", k, l] =>
@@ -97,6 +101,7 @@ def perNames (evs : List (List String)) : List String :=
     fs.filterMap fun g => match g with
       | ["rtell", k, _] => some s!"s{k}"
       | ["batch", k, _] => some s!"s{k}"
+      | ["rpass", k, _, _, _] => some s!"V{k}"
       | _ => none
   ["G", "U", "ghost"] ++ sent
 
@@ -120,7 +125,7 @@ def parseDL (t : String) : Option DL :=
     | some id, some s, some r =>
       let cause := match c with
         | "full" => some Cause.mailboxFull | "unhandled" => some .unhandled | "notfound" => some .notFound
-        | "batch" => some .batch | _ => none
+        | "batch" => some .batch | "notrunning" => some .notRunning | _ => none
       cause.map fun c => ⟨id, s, r, c⟩
     | _, _, _ => none
   | _ => none
